@@ -66,6 +66,16 @@ theorem fault_names_line (hw : Bool) (a : Nat) (prog : List Exec.Instr) (fuel : 
     (run hw a prog fuel s pc).pc = ln ∧ (run hw a prog fuel s pc).visited.getLast? = some ln :=
   run_fault_line hw a prog fuel s pc f ln h
 
+/-- "Execution stops at that instruction": once a fault is reported no further instruction is ever
+executed, whatever the step budget — the run with any larger budget is the same run, with the same
+single report, the same final program counter and the same visited lines.  (The real executor is
+checked against this also with a `_handle_command_exception` hook that records and returns instead
+of raising: exactly one report, the loop ends.) -/
+theorem fault_stops (hw : Bool) (a : Nat) (prog : List Exec.Instr) (fuel k : Nat) (s : State) (pc : Int)
+    (f : Fault) (ln : Option Int) (h : (run hw a prog fuel s pc).out = .fault f ln) :
+    run hw a prog (fuel + k) s pc = run hw a prog fuel s pc :=
+  Exec.run_fuel_mono hw a prog fuel k s pc (by rw [h]; simp)
+
 /-! ### one lemma per fault cause of the statement (instruction of a registered application) -/
 
 /-- storing an undefined value -/
